@@ -145,6 +145,9 @@ func (w *Workspace) RunGocc(name string, src []byte, o GoccOpts) GoccResult {
 		outSub = name
 	}
 	res := GoccResult{Name: name, OutDir: filepath.Join(workDir, outSub)}
+	if filepath.IsAbs(outSub) {
+		res.OutDir = outSub
+	}
 	if o.NoOut {
 		res.OutDir = workDir
 	}
